@@ -3,9 +3,12 @@
 package main
 
 import (
+	"bytes"
 	"context"
+	"errors"
 	"fmt"
 	"os"
+	"runtime"
 	"strconv"
 	"time"
 
@@ -43,7 +46,7 @@ func snapshotChunks(c int64) []chunkRec {
 	db, err := kv.NewDB(namespace, shardId, f, time.Hour, oxtime.SystemClock)
 	hx.Must(err)
 	for i := int64(0); i <= c; i++ {
-		_, err := db.ProcessWrite(&proto.WriteRequest{Puts: []*proto.PutRequest{{Key: "k", Value: []byte(strconv.FormatInt(1000+i, 10))}}},
+		_, err := db.ProcessWrite(&proto.WriteRequest{Puts: []*proto.PutRequest{{Key: "k", Value: payBytes(1000 + i)}}},
 			i, 1, kv.NoOpCallback)
 		hx.Must(err)
 	}
@@ -62,22 +65,58 @@ func snapshotChunks(c int64) []chunkRec {
 	return res
 }
 
+var errStreamReset = errors.New("snapshot stream reset by harness")
+
+// snapStream: the server side of SendSnapshot.  fail: 0 all chunks then end of stream, 1 the stream fails before the
+// first chunk, 2 it fails after the first chunk, 3 the second chunk carries another term.
 type snapStream struct {
+	h      *H
 	ctx    context.Context
 	term   int64
 	chunks []chunkRec
 	next   int
+	fail   int
+	recvs  int
 	resp   *proto.SnapshotResponse
 }
 
 func (s *snapStream) SendAndClose(r *proto.SnapshotResponse) error { s.resp = r; return nil }
 func (s *snapStream) Recv() (*proto.SnapshotChunk, error) {
+	s.recvs++
+	// a race may park the handler right before the i-th chunk is delivered
+	parkMu.Lock()
+	p := s.h.callPark
+	if p != nil && p.kind == "recv" {
+		p.n--
+		if p.n > 0 {
+			p = nil
+		} else {
+			s.h.callPark = nil
+		}
+	} else {
+		p = nil
+	}
+	parkMu.Unlock()
+	if p != nil {
+		close(p.arrived)
+		<-p.release
+	}
+	if s.fail == 1 && s.next == 0 {
+		return nil, errStreamReset
+	}
+	if s.fail == 2 && s.next == 1 {
+		return nil, errStreamReset
+	}
 	if s.next >= len(s.chunks) {
 		return nil, nil
 	}
 	c := s.chunks[s.next]
+	t := s.term
+	if s.fail == 3 && s.next >= 1 {
+		t = s.term + 100
+	}
 	s.next++
-	return &proto.SnapshotChunk{Term: s.term, Name: c.name, ChunkIndex: c.index, ChunkCount: c.count, Content: c.content}, nil
+	return &proto.SnapshotChunk{Term: t, Name: c.name, ChunkIndex: c.index, ChunkCount: c.count, Content: c.content}, nil
 }
 func (s *snapStream) SetHeader(metadata.MD) error  { return nil }
 func (s *snapStream) SendHeader(metadata.MD) error { return nil }
@@ -86,10 +125,14 @@ func (s *snapStream) Context() context.Context     { return s.ctx }
 func (s *snapStream) SendMsg(any) error            { return fmt.Errorf("not implemented") }
 func (s *snapStream) RecvMsg(any) error            { return fmt.Errorf("not implemented") }
 
-func (h *H) doSnapshot(sid int, t, c int64) {
+func (h *H) doSnapshot(sid int, t, c int64, fail int) {
 	md := metadata.Pairs("shard-id", strconv.FormatInt(shardId, 10), "namespace", namespace, "term", strconv.FormatInt(t, 10))
-	st := &snapStream{ctx: metadata.NewIncomingContext(context.Background(), md), term: t, chunks: snapshotChunks(c)}
+	st := &snapStream{h: h, ctx: metadata.NewIncomingContext(context.Background(), md), term: t, chunks: snapshotChunks(c), fail: fail}
+	h.mu.Lock()
+	lenBefore := len(h.shadow)
+	h.mu.Unlock()
 	err := safe(func() error { return h.rpc.SendSnapshot(st) })
+	waitNoGoroutineIn("followerController).handleSnapshot")
 	res := errKind(err)
 	if err == nil {
 		if st.resp != nil {
@@ -98,6 +141,41 @@ func (h *H) doSnapshot(sid int, t, c int64) {
 		} else {
 			res = "err:noresponse"
 		}
+	} else if st.next >= 1 && (fail == 2 || fail == 3) {
+		// the install failed after its first chunk was accepted: the DB directory has been emptied
+		h.snapFailed = true
+		_ = lenBefore
+		h.termActionAccepted(t) // the log was cleared on behalf of the leader of term t
 	}
-	h.record(fmt.Sprintf("SN:%d:%d:%d", sid, t, c), res)
+	act := fmt.Sprintf("SN:%d:%d:%d", sid, t, c)
+	if fail != 0 {
+		act = fmt.Sprintf("SN:%d:%d:%d:%d", sid, t, c, fail)
+	}
+	h.record(act, res)
+}
+
+// doSnapshotQuiet: SendSnapshot without recording (used from a second goroutine)
+func (h *H) doSnapshotQuiet(sid int, t, c int64) {
+	md := metadata.Pairs("shard-id", strconv.FormatInt(shardId, 10), "namespace", namespace, "term", strconv.FormatInt(t, 10))
+	st := &snapStream{h: h, ctx: metadata.NewIncomingContext(context.Background(), md), term: t, chunks: snapshotChunks(c)}
+	_ = safe(func() error { return h.rpc.SendSnapshot(st) })
+	waitNoGoroutineIn("followerController).handleSnapshot")
+}
+
+// waitNoGoroutineIn waits (bounded) until no goroutine of the process is inside the given function: SendSnapshot can return
+// (its stream was closed by another request) while the handler goroutine it started is still running.
+func waitNoGoroutineIn(fn string) {
+	buf := make([]byte, 1<<20)
+	deadline := time.Now().Add(3 * time.Second)
+	for {
+		n := runtime.Stack(buf, true)
+		for n == len(buf) && len(buf) < 64<<20 {
+			buf = make([]byte, 2*len(buf))
+			n = runtime.Stack(buf, true)
+		}
+		if !bytes.Contains(buf[:n], []byte(fn)) || time.Now().After(deadline) {
+			return
+		}
+		time.Sleep(200 * time.Microsecond)
+	}
 }
